@@ -43,7 +43,10 @@ import (
 //   (d) when all pairs run concurrently in goroutines sharing the caches.
 // Self-checking template programs carry the expected return data by construction:
 // unwritten memory reads as zero, a callee's stack and memory leftovers are
-// invisible to the caller, a repeated precompile call returns the same bytes.
+// invisible to the caller, a repeated precompile call returns the same bytes,
+// a creation whose init code jumps to a JUMPDEST succeeds and one that jumps into
+// push data fails - also onto an address that already exists as a funded account
+// without code, and whatever init code was analysed before it.
 // ---------------------------------------------------------------------------
 
 type c28Pair struct {
@@ -52,7 +55,33 @@ type c28Pair struct {
 	base     *state.StateDB
 	expect   []byte // self-checking templates: exact return data
 	hasExp   bool
+	expErrc  string // self-checking creation message: exact error class ("" = not fixed)
 	polluter bool
+	// funded: accounts that exist in the pair's state with a balance and nothing else
+	// (no code, nonce 0) and that a creation of this message targets
+	funded []common.Address
+}
+
+func (p *c28Pair) isFunded(a common.Address) bool {
+	for _, f := range p.funded {
+		if f == a {
+			return true
+		}
+	}
+	return false
+}
+
+// fund turns the given addresses into pre-existing code-less accounts (skipping
+// any that exist already) and makes that part of the committed pre-state.
+func (p *c28Pair) fund(addrs []common.Address) {
+	for _, a := range addrs {
+		if p.base.Exist(a) || p.isFunded(a) {
+			continue
+		}
+		p.base.SetBalance(a, uint256.NewInt(1), tracing.BalanceChangeUnspecified)
+		p.funded = append(p.funded, a)
+	}
+	p.base.Finalise(evmx.Rules(p.cs.fork))
 }
 
 type c28Result struct {
@@ -69,7 +98,16 @@ type c28Result struct {
 }
 
 func (r c28Result) String() string {
-	return fmt.Sprintf("{err=%s gas=<%d,%d> ret=%x logs=%d/%x root=%x}", r.errc, r.gasE, r.gasS, r.ret, r.nlogs, r.logs[:4], r.root[:6])
+	return fmt.Sprintf("{err=%s gas=<%d,%d> ret=%s logs=%d/%x root=%x}", r.errc, r.gasE, r.gasS, c28Hex(r.ret), r.nlogs, r.logs[:4], r.root[:6])
+}
+
+// c28Hex renders data for a report, abbreviating long data: rapid cannot load a fail
+// file that has a line above 64 KiB.
+func c28Hex(b []byte) string {
+	if len(b) <= 256 {
+		return fmt.Sprintf("%x", b)
+	}
+	return fmt.Sprintf("%x...(%d bytes, keccak %x)", b[:64], len(b), crypto.Keccak256(b)[:8])
 }
 
 func c28Same(a, b c28Result) bool {
@@ -271,6 +309,152 @@ func c28DrawTemplate(rt *rapid.T, f ep.Fork) (*ep.World, []byte, string) {
 	}
 }
 
+// ---- creations onto pre-existing code-less accounts ---------------------------
+//
+// A deployment address may exist before the deployment as a plain funded account
+// (counterfactual address, or value sent to it earlier). The creation goes ahead
+// there, and its init code - like any init code - must be judged by its own
+// JUMPDEST analysis, whatever was analysed earlier through the same cache.
+
+// c28Init is a small jumping init code whose outcome is known by construction.
+type c28Init struct {
+	code    []byte
+	good    bool   // the jump lands on a JUMPDEST (else: on a 0x5b inside PUSH1 data)
+	runtime []byte // code deployed when good
+}
+
+// c28DrawInit draws
+//
+//	m x (PUSHn <data> POP)  [PUSH1 1] PUSH1 target JUMP|JUMPI  g x INVALID  dest  body
+//
+// with dest = JUMPDEST (good) or PUSH1 0x5b whose data byte is the target (bad); the
+// PUSHn data is dense in 0x5b, and m, n, g move the destination around, so that the
+// code/data bitmaps of two drawn init codes disagree at each other's targets. body
+// stores a marker in slot 0, optionally logs, and returns 0..3 bytes of code.
+func c28DrawInit(rt *rapid.T, allowBad bool) c28Init {
+	var c []byte
+	for i, m := 0, ep.Uniform(rt, "init-prefix", 4); i < m; i++ {
+		n := []int{1, 2, 4, 8, 16, 32}[ep.Uniform(rt, "init-push-n", 6)]
+		c = append(c, ep.PUSH1+byte(n-1))
+		switch ep.Uniform(rt, "init-data-kind", 3) {
+		case 0:
+			c = append(c, bytes.Repeat([]byte{ep.JUMPDEST}, n)...)
+		case 1:
+			for k := 0; k < n; k++ {
+				c = append(c, []byte{ep.JUMPDEST, 0x00}[k%2])
+			}
+		default:
+			c = append(c, rapid.SliceOfN(rapid.Byte(), n, n).Draw(rt, "init-data")...)
+		}
+		c = append(c, ep.POP)
+	}
+	in := c28Init{good: !(allowBad && ep.Uniform(rt, "init-bad", 4) == 0)}
+	cond := ep.Uniform(rt, "init-jumpi", 3) == 0
+	gap := ep.Uniform(rt, "init-gap", 3)
+	target := len(c) + 3 + gap
+	if cond {
+		target += 2
+		c = append(c, ep.PUSH1, 1)
+	}
+	if !in.good {
+		target++ // the data byte of the PUSH1 below
+	}
+	c = append(c, ep.PUSH1, byte(target), map[bool]byte{false: ep.JUMP, true: ep.JUMPI}[cond])
+	c = append(c, bytes.Repeat([]byte{ep.INVALID}, gap)...)
+	if in.good {
+		c = append(c, ep.JUMPDEST)
+	} else {
+		c = append(c, ep.PUSH1, ep.JUMPDEST)
+	}
+	c = append(c, ep.PUSH1, byte(1+ep.Uniform(rt, "init-marker", 255)), ep.PUSH1, 0, ep.SSTORE)
+	if ep.Uniform(rt, "init-log", 3) == 0 {
+		c = append(c, ep.PUSH1, 0, ep.PUSH1, 0, ep.LOG0)
+	}
+	in.runtime = [][]byte{{}, {0x00}, {ep.PUSH1, 0x00, ep.POP}, {ep.JUMPDEST, ep.JUMPDEST}}[ep.Uniform(rt, "init-runtime", 4)]
+	for i, b := range in.runtime {
+		c = append(c, ep.PUSH1, b, ep.PUSH1, byte(i), ep.MSTORE8)
+	}
+	c = append(c, ep.PUSH1, byte(len(in.runtime)), ep.PUSH1, 0, ep.RETURN)
+	if target > 255 || c[target] != ep.JUMPDEST {
+		rt.Fatalf("VERIF-HARNESS-BUG: init code target %d misplaced in %x", target, c)
+	}
+	in.code = c
+	return in
+}
+
+// c28DrawCreation draws a message that performs 1-3 creations with c28DrawInit
+// codes: a creation message from the origin, or a call of a factory that CREATEs /
+// CREATE2s (drawn salts) and returns the resulting address words. It reports the
+// creation addresses (to be pre-funded by the caller) and what the message returns.
+func c28DrawCreation(rt *rapid.T, f ep.Fork, cs *c27Case, p *c28Pair) []common.Address {
+	if ep.Uniform(rt, "creation-shape", 3) == 0 {
+		// creation message; the origin's nonce is 1 in every installed state
+		in := c28DrawInit(rt, true)
+		cs.world, cs.create = c28World(f, in.code), true
+		if in.good {
+			p.expect, p.hasExp = in.runtime, true
+		} else {
+			p.expErrc = "invalid-jump"
+		}
+		p.kind = "create-direct"
+		return []common.Address{crypto.CreateAddress(evmx.Origin, 1)}
+	}
+	factory := evmx.Addr(ep.ContractAddr(0))
+	n := 1 + ep.Uniform(rt, "creation-n", 3)
+	a := ep.NewAsm(f >= ep.Shanghai)
+	var targets []common.Address
+	for j := 0; j < n; j++ {
+		// A failed creation burns all the gas it was given (all but 1/64 of what is left,
+		// everything before EIP-150): only the last creation may fail, and none before
+		// EIP-150, so that the factory always gets to return.
+		in := c28DrawInit(rt, j == n-1 && f >= ep.Tangerine)
+		op := ep.CREATE
+		if f >= ep.Constantinople && ep.Uniform(rt, "creation-op", 2) == 1 {
+			op = ep.CREATE2
+		}
+		value := uint64(ep.Uniform(rt, "creation-value", 2))
+		s, e := a.Data(in.code)
+		a.PushDistance(s, e).PushLabel(s).PushU(0).Op(ep.CODECOPY)
+		var addr common.Address
+		if op == ep.CREATE2 {
+			salt := common.BytesToHash(ep.DrawWord(rt, "creation-salt"))
+			a.PushN(salt[:])
+			addr = crypto.CreateAddress2(factory, salt, crypto.Keccak256(in.code))
+		} else {
+			// every creation attempt, CREATE2 included, advances the creator's nonce
+			addr = crypto.CreateAddress(factory, uint64(1+j))
+		}
+		a.PushDistance(s, e).PushU(0).PushU(value).Op(op)
+		a.PushU(uint64(0x100 + 32*j)).Op(ep.MSTORE)
+		targets = append(targets, addr)
+		word := common.Hash{}
+		if in.good {
+			word = common.BytesToHash(addr[:])
+		}
+		p.expect = append(p.expect, word[:]...)
+	}
+	a.PushU(uint64(32 * n)).PushU(0x100).Op(ep.RETURN)
+	cs.world, p.hasExp, p.kind = c28World(f, a.MustBytes()), true, "create-factory"
+	return targets
+}
+
+// c28CreateTargets executes the pair's message once and reports the addresses its
+// creation frames ran at (none if the run blew up).
+func c28CreateTargets(p *c28Pair) []common.Address {
+	var out []common.Address
+	r := c28Exec(p, nil, nil, true, nil, &tracing.Hooks{
+		OnEnter: func(depth int, typ byte, from, to common.Address, input []byte, gas uint64, value *big.Int) {
+			if isCreateType(typ) && len(out) < 8 {
+				out = append(out, to)
+			}
+		},
+	})
+	if r.panic != "" {
+		return nil
+	}
+	return out
+}
+
 // ---- wrappers for the nesting relation ---------------------------------------
 
 func c28WrapAddr(i int) [20]byte { return [20]byte{0x3a, 0xbb, 19: byte(i + 1)} }
@@ -333,6 +517,12 @@ type c28Stats struct {
 	precompileCalls int
 	frames          int
 	precompiles     map[common.Address]bool
+	// creation frames running at a pre-existing code-less account: all / those whose
+	// init code executed a jump (and so needed a JUMPDEST analysis)
+	funded         func(common.Address) bool
+	open           []bool
+	fundedCreates  int
+	fundedAnalysed int
 }
 
 func (s *c28Stats) hooks() *tracing.Hooks {
@@ -348,14 +538,26 @@ func (s *c28Stats) hooks() *tracing.Hooks {
 			if op == ep.GAS {
 				s.gasOp = true
 			}
+			if n := len(s.open); (op == ep.JUMP || op == ep.JUMPI) && n > 0 && s.open[n-1] {
+				s.open[n-1] = false
+				s.fundedAnalysed++
+			}
 		},
 		OnEnter: func(depth int, typ byte, from, to common.Address, input []byte, gas uint64, value *big.Int) {
 			s.frames++
 			if s.precompiles[to] {
 				s.precompileCalls++
 			}
+			onFunded := isCreateType(typ) && s.funded != nil && s.funded(to)
+			if onFunded {
+				s.fundedCreates++
+			}
+			s.open = append(s.open, onFunded)
 		},
 		OnExit: func(depth int, output []byte, gasUsed uint64, err error, reverted bool) {
+			if n := len(s.open); n > 0 {
+				s.open = s.open[:n-1]
+			}
 			if err != nil && !errors.Is(err, vm.ErrExecutionReverted) {
 				switch evmx.ErrClass(err) {
 				case "oog", "depth", "gas-overflow", "codestore-oog":
@@ -390,7 +592,8 @@ func c28DrawPair(rt *rapid.T) *c28Pair {
 	p := &c28Pair{}
 	cs := &c27Case{fork: f, value: new(uint256.Int)}
 	cs.pre = evmx.Pre{ContractBalance: 1000, EOABalance: 5}
-	switch k := ep.Uniform(rt, "pair-kind", 20); {
+	var targets []common.Address // creation addresses the message is known to use
+	switch k := ep.Uniform(rt, "pair-kind", 24); {
 	case k < 9: // generated world
 		wc := ep.WorldConfig{Fork: f, MaxContracts: 3, RawEntryPct: 5}
 		wc.Gen.MaxBlocks = 7
@@ -412,6 +615,12 @@ func c28DrawPair(rt *rapid.T) *c28Pair {
 		cs.world = c28World(f, c28PolluterCode(f, &a1), c28PolluterCode(f, &a2), c28PolluterCode(f, nil))
 		cs.gas = 3_000_000
 		p.kind, p.polluter = "polluter", true
+	case k >= 20: // self-checking creations, onto pre-existing code-less accounts
+		targets = c28DrawCreation(rt, f, cs, p)
+		cs.gas = 5_000_000
+		if ep.Uniform(rt, "value", 5) == 0 {
+			cs.value = uint256.NewInt(1)
+		}
 	case k < 17: // self-checking template
 		w, exp, name := c28DrawTemplate(rt, f)
 		cs.world, p.expect, p.hasExp, p.kind = w, exp, true, name
@@ -451,6 +660,22 @@ func c28DrawPair(rt *rapid.T) *c28Pair {
 		}
 	}
 	evmx.Install(p.base, &w, cs.pre)
+	// Creation targets that exist already as funded accounts without code: those of the
+	// creation templates are known, those of a generated world are taken from a trial
+	// run (funding them may change what the message does afterwards - it is one more
+	// pre-state, the same for every execution that is compared).
+	if p.kind == "gen" && ep.Uniform(rt, "prefund-gen", 2) == 0 {
+		targets = c28CreateTargets(p)
+	}
+	var fund []common.Address
+	for _, a := range targets {
+		if ep.Uniform(rt, "prefund", 4) != 0 {
+			fund = append(fund, a)
+		}
+	}
+	if len(fund) > 0 {
+		p.fund(fund)
+	}
 	return p
 }
 
@@ -475,7 +700,16 @@ type c28Case struct {
 func (cc *c28Case) dump() string {
 	s := ""
 	for i, p := range cc.pairs {
-		s += fmt.Sprintf(" pair %d (%s) baseline %v\n%s", i, p.kind, cc.base[i], p.cs.dump())
+		s += fmt.Sprintf(" pair %d (%s) baseline %v\n%s", i, p.kind, cc.base[i], cc.dumpPair(i))
+	}
+	return s
+}
+
+func (cc *c28Case) dumpPair(i int) string {
+	p := cc.pairs[i]
+	s := p.cs.dump()
+	if len(p.funded) > 0 {
+		s += fmt.Sprintf("  pre-existing funded accounts without code: %x\n", p.funded)
 	}
 	return s
 }
@@ -506,10 +740,13 @@ func c28Baseline(rt *rapid.T, freshPools bool) *c28Case {
 			rt.Fatalf("C28: panic in baseline run of pair %d (%s): %s\n%s", i, p.kind, r.panic, p.cs.dump())
 		}
 		if p.hasExp && (!r.ok || !bytes.Equal(r.ret, p.expect)) {
-			rt.Fatalf("C28: self-checking program %s (pair %d) returned err=%s %x, expected %x\n%s", p.kind, i, r.errc, r.ret, p.expect, p.cs.dump())
+			rt.Fatalf("C28: self-checking program %s (pair %d) returned err=%s %s, expected %s\n%s", p.kind, i, r.errc, c28Hex(r.ret), c28Hex(p.expect), cc.dumpPair(i))
+		}
+		if p.expErrc != "" && r.errc != p.expErrc {
+			rt.Fatalf("C28: self-checking program %s (pair %d) ended with err=%s %s, expected err=%s\n%s", p.kind, i, r.errc, c28Hex(r.ret), p.expErrc, cc.dumpPair(i))
 		}
 		cc.base = append(cc.base, r)
-		st := &c28Stats{precompiles: map[common.Address]bool{}}
+		st := &c28Stats{precompiles: map[common.Address]bool{}, funded: p.isFunded}
 		for _, a := range vm.ActivePrecompiles(evmx.Rules(p.cs.fork)) {
 			st.precompiles[a] = true
 		}
@@ -527,7 +764,7 @@ func (cc *c28Case) check(rt *rapid.T, what string, i int, r c28Result) {
 		rt.Fatalf("C28 (%s): pair %d (%s) gave %v, baseline %v\n%s", what, i, cc.pairs[i].kind, r, cc.base[i], cc.dump())
 	}
 	if p := cc.pairs[i]; p.hasExp && !bytes.Equal(r.ret, p.expect) {
-		rt.Fatalf("C28 (%s): self-checking pair %d (%s) returned %x, expected %x\n%s", what, i, p.kind, r.ret, p.expect, cc.dump())
+		rt.Fatalf("C28 (%s): self-checking pair %d (%s) returned %s, expected %s\n%s", what, i, p.kind, c28Hex(r.ret), c28Hex(p.expect), cc.dump())
 	}
 }
 
@@ -540,6 +777,12 @@ func (cc *c28Case) nestable(i int) bool {
 		return false
 	}
 	if st.gasOp || st.gasFail || cs.gas-b.gasE > cs.gas/4 || cs.resv != 0 {
+		return false
+	}
+	// what one relay frame spends: < 3000 for its instructions and the (cold) call, plus
+	// copying calldata in and return data out of w words each and the memory for them
+	w := words(uint64(max(len(cs.input), len(b.ret))))
+	if overhead := 3000 + 6*w + 3*w + w*w/512; c28MaxWrap*overhead > cs.gas/4 {
 		return false
 	}
 	if cs.world.Features&(ep.FRaw|ep.FGasOp|ep.FRecurse) != 0 {
@@ -629,8 +872,12 @@ func c28Property(rt *rapid.T, st *vs.S, conc bool) {
 
 	steps := 0
 	desc := ""
+	fundedCreates, fundedAnalysed := 0, 0
 	for i, p := range cc.pairs {
 		steps += cc.stats[i].steps
+		fundedCreates += cc.stats[i].fundedCreates
+		fundedAnalysed += cc.stats[i].fundedAnalysed
+		desc += fmt.Sprintf("%x/", p.funded)
 		c.Class("pair:" + p.kind)
 		c.Class("fork:" + p.cs.fork.String())
 		c.Class("result:" + cc.base[i].errc)
@@ -639,17 +886,25 @@ func c28Property(rt *rapid.T, st *vs.S, conc bool) {
 			desc += fmt.Sprintf("%x/", crypto.Keccak256(k.Code)[:8])
 		}
 	}
-	for _, h := range []string{"dirty-predecessor", "precompile-cache-warm", "nested", "concurrent"} {
+	// two or more creations at pre-existing code-less accounts whose init code needed a
+	// JUMPDEST analysis went through one cache (relation c resp. d)
+	if fundedAnalysed >= 2 {
+		hits["jumping-creations-onto-funded"] = true
+	}
+	if fundedCreates > 0 {
+		c.Class("creation-onto-funded-account")
+	}
+	for _, h := range []string{"dirty-predecessor", "precompile-cache-warm", "nested", "concurrent", "jumping-creations-onto-funded"} {
 		if hits[h] {
 			c.Class("hit:" + h)
 		}
 	}
-	nt := steps >= 10 && (hits["dirty-predecessor"] || hits["precompile-cache-warm"] || hits["concurrent"])
+	nt := steps >= 10 && (hits["dirty-predecessor"] || hits["precompile-cache-warm"] || hits["concurrent"] || hits["jumping-creations-onto-funded"])
 	c.NonTrivial(nt, desc)
 	c.Sample(nt, func() any {
 		var out []any
 		for i, p := range cc.pairs {
-			out = append(out, map[string]any{"kind": p.kind, "fork": p.cs.fork.String(), "gas": p.cs.gas, "baseline": cc.base[i].String(), "steps": cc.stats[i].steps})
+			out = append(out, map[string]any{"kind": p.kind, "fork": p.cs.fork.String(), "gas": p.cs.gas, "baseline": cc.base[i].String(), "steps": cc.stats[i].steps, "creations_onto_funded": cc.stats[i].fundedCreates})
 		}
 		return out
 	})
